@@ -543,7 +543,15 @@ impl<'a> Ref<'a> {
             let found = kv.iter().find(|(k, _)| *k == p.key).map(|(_, x)| x);
             let t = match found {
                 Some(x) => {
-                    if p.optional && (if self.ts_nullish { matches!(x, JsVal::Undef) } else { x.is_nullish() }) {
+                    if p.optional && self.ts_nullish && matches!(x, JsVal::Undef) {
+                        // compile-time reading: whether `a?: T` admits an explicit undefined is a TypeScript option
+                        // (exactOptionalPropertyTypes); the engine tells absent from undefined. Not pinned by the
+                        // statement unless T admits undefined itself.
+                        match self.member_fuel(&p.ty, x, fuel - 1) {
+                            Yes => Yes,
+                            _ => Unspec,
+                        }
+                    } else if p.optional && !self.ts_nullish && x.is_nullish() {
                         Yes
                     } else {
                         self.member_fuel(&p.ty, x, fuel - 1)
